@@ -371,7 +371,7 @@ def main(tier, seed, replay=None):
     for i in range(0, len(small), per):
         cases.append(("ints", seed, i, small[i:i + per]))
     cases.append(("chars", seed))
-    nstr = 3 if tier == "quick" else 60
+    nstr = 10 if tier == "quick" else 60
     for i in range(nstr):
         cases.append(("strings", seed, i, 25))
     for name, stmt, want in MALFORMED:
